@@ -91,6 +91,17 @@ def analyse(model, fn, contracts, fields_written_by=None, assume_entry=None, cla
         if buf not in buf_bounds:
             if Zone.pretty_term(buf) in contract.foreign or buf[2:] in contract.foreign:
                 return ("foreign", buf)
+            # an array variable of constant extent (a local / static lookup table) carries its own bound
+            import re as _re
+            bt_ = (fn.nodes[fn.strip_casts(base_nid)].get("t") or "")
+            mm_ = _re.search(r"\[(\d+)\]$", bt_.strip())
+            if mm_ and fn.nodes[fn.strip_casts(base_nid)]["k"] == "DeclRefExpr":
+                B = Lin({}, int(mm_.group(1)))
+                total = (off + idx_lin) if idx_lin is not None else None
+                if total is None:
+                    return (False, "index into the %s-element table is not a linear form of tracked terms" % mm_.group(1), buf, B)
+                ok = st.lin_le0((total - B).shift(1)) and st.lin_le0(Lin({}, 0) - total)
+                return (ok, "need 0 <= %s < %s (extent of the table)" % (plin(total), mm_.group(1)), buf, B, False)
             return ("unclassified", buf)
         B = bound_lin(st, buf_bounds[buf])
         if B is None:
@@ -120,6 +131,17 @@ def analyse(model, fn, contracts, fields_written_by=None, assume_entry=None, cla
         n = fn.nodes[nid]
         k = n["k"]
         if st.bottom:
+            return
+        if k == "ReturnStmt" and contract.ret and n.get("val", -1) is not None and n.get("val", -1) >= 0:
+            # facts about the returned value that callers assume (ret=[('le', param)]): proven at every return
+            seen.add(nid)
+            rv = z.lin(st, n["val"])
+            for rr in contract.ret:
+                if rr[0] == "le":
+                    B = bound_lin(st, rr[1])
+                    ok = rv is not None and B is not None and st.lin_le0(rv - B)
+                    obs.append(Ob("ZB-ens", fn, nid, "return %s" % fn.text(n["val"])[:40], ok, "the returned value must be <= %s (callers index with it)" % rr[1],
+                                  {"facts": fmt_state(st, (rv.terms() if rv is not None else set()) | (B.terms() if B is not None else set()))[:12], "block": b["id"]}))
             return
         if k == "ArraySubscriptExpr":
             seen.add(nid)
